@@ -264,6 +264,11 @@ class Bomb(SerializableType):
 
     armed: set = set()
     armed_de: set = set()
+    # re-entrancy: while one of these tags is (de)serialized, `nested_call()` is run (the harness puts an
+    # option-less library call of its own there and collects what it returns)
+    nested: set = set()
+    nested_call = None
+    nested_results: list = []
 
     def __init__(self, tag: int) -> None:
         self.tag = tag
@@ -271,13 +276,25 @@ class Bomb(SerializableType):
     def _serialize(self):
         if self.tag in Bomb.armed:
             raise BombError(f"serialize {self.tag}")
+        if self.tag in Bomb.nested and Bomb.nested_call is not None:
+            Bomb._run_nested()
         return {"tag": self.tag}
 
     @classmethod
     def _deserialize(cls, value):
         if value["tag"] in Bomb.armed_de:
             raise BombError(f"deserialize {value['tag']}")
+        if value["tag"] in Bomb.nested and Bomb.nested_call is not None:
+            Bomb._run_nested()
         return Bomb(value["tag"])
+
+    @staticmethod
+    def _run_nested():
+        call, Bomb.nested_call = Bomb.nested_call, None  # (one level only)
+        try:
+            Bomb.nested_results.append(call())
+        finally:
+            Bomb.nested_call = call
 
     def __eq__(self, other):
         return isinstance(other, Bomb) and other.tag == self.tag
